@@ -52,6 +52,8 @@ type Ctx struct {
 	Notes  []string
 	Undec  []string
 	relPfx string
+	renamed     map[string]*ssa.Function // reference name -> function now carrying another name (anchors.go)
+	RenameNotes []string
 }
 
 func (c *Ctx) pos(p token.Pos) string {
@@ -190,6 +192,17 @@ func (c *Ctx) spkg(rel string) *ssa.Package {
 
 // fn finds a package-level function ("name") or method ("Type.name") in the SSA program; nil if absent.
 func (c *Ctx) fn(rel, name string) *ssa.Function {
+	if f := c.fnByName(rel, name); f != nil {
+		return f
+	}
+	if f := c.renamed[rel+"."+name]; f != nil {
+		c.touched(f)
+		return f
+	}
+	return nil
+}
+
+func (c *Ctx) fnByName(rel, name string) *ssa.Function {
 	sp := c.spkg(rel)
 	if i := strings.IndexByte(name, '.'); i >= 0 {
 		tn, mn := name[:i], name[i+1:]
@@ -234,6 +247,16 @@ func (c *Ctx) mustFn(rule, rel, name string) *ssa.Function {
 
 // decl finds the *ast.FuncDecl for "name" or "Type.name".
 func (c *Ctx) decl(rel, name string) *ast.FuncDecl {
+	if d := c.declByName(rel, name); d != nil {
+		return d
+	}
+	if f := c.renamed[rel+"."+name]; f != nil {
+		return c.declByName(rel, anchorName(f))
+	}
+	return nil
+}
+
+func (c *Ctx) declByName(rel, name string) *ast.FuncDecl {
 	p := c.pkg(rel)
 	tn, mn := "", name
 	if i := strings.IndexByte(name, '.'); i >= 0 {
@@ -504,7 +527,7 @@ func finish(c *Ctx, spec *propSpec, known []KnownFinding, evDir string, t0 time.
 			"checker_cmd":               cmd,
 			"trusted_base":              []string{"go/types", "golang.org/x/tools/go/ssa v0.50.0", "golang.org/x/tools/go/callgraph/{cha,vta}", "rule slot tables in /verif/checker/c*.go", "go list (go1.26.8) package loading"},
 			"undecided":                 c.Undec,
-			"notes":                     c.Notes,
+			"notes":                     append(append([]string{}, c.Notes...), c.RenameNotes...),
 		},
 		"assumptions": append([]string{
 			"satisfying the structural rules is necessary, not sufficient, for the behavioural property",
